@@ -287,7 +287,8 @@ def retention(ctx, res):
             total = 0
             for i in range(n):
                 filler = bytes((i * 7 + k) % 251 for k in range(6000))
-                dg = B.enc_community_msg(1000 + i, filler, pdu) if i % 2 else B.enc_community_msg(1, filler, pdu)
+                # odd: another unknown version each time, itself a 6000-octet INTEGER; even: another community
+                dg = B.enc_community_msg(int.from_bytes(b"\x01" + filler, "big"), b"public", pdu) if i % 2 else B.enc_community_msg(1, filler, pdu)
                 total += len(dg)
                 lst.inject([("10.0.%d.%d" % (i // 250, i % 250 + 1), 2000 + i, dg)])
             gc.collect()
